@@ -41,6 +41,8 @@ fn main() {
             e.zst_pairs::<2, 2>();
             e.zst_pairs::<1, 3>();
             e.zst_pairs::<3, 0>();
+            e.zst_values::<3, 3>();
+            e.zst_values::<2, 4>();
         }
         e.cx.rep.exhaustive = e.cx.only_hist.is_none();
         if random > 0 {
